@@ -21,7 +21,7 @@ def run(tier):
                       "thread from an odd address (same digest required) and drives the lookup helpers / glyph loading of the "
                       "damaged font on every 8th. CmapIter.tla (clamping rule of the cmap 4 / 12 iterators: strictly ascending yields for every "
                       "list of <= 3 overlapping / contained / descending groups) and PackedHostile.tla (every packed-delta stream of "
-                      "<= 3 control/data bytes behind private point lists) enumerate hostile inputs for two hand-written decoders, ContextClosure.tla ((chained) sequence context lookups in all three formats whose lookup records carry any sequence index incl. beyond the rule's input, and range coverage tables with start coverage indices at the top of the 16-bit range; compiled with write-fonts, closed over / queried by read-fonts, the closure compared with the model's exact .. over-approximated range) SimpleGlyph.tla (simple glyph point data: the OpenType reading and read_points_fast as written - total, runs never beyond the last point, equal where the former is defined), CompositeGlyph.tla (component records: the full and the fast iterator - the full list is a prefix of the fast one, at most one record shorter, equal on complete data) and Index.tla (the CFF INDEX reader: every small count x offset size x offset array incl. backwards / zero / out-of-data offsets, complete and cut short, with the answers for get(0..count+1)) for a third; "
+                      "<= 3 control/data bytes behind private point lists) enumerate hostile inputs for two hand-written decoders, ContextClosure.tla ((chained) sequence context lookups in all three formats whose lookup records carry any sequence index incl. beyond the rule's input, and range coverage tables with start coverage indices at the top of the 16-bit range; compiled with write-fonts, closed over / queried by read-fonts, the closure compared with the model's exact .. over-approximated range) SimpleGlyph.tla (simple glyph point data: the OpenType reading and read_points_fast as written - total, runs never beyond the last point, equal where the former is defined), CompositeGlyph.tla (component records: the full and the fast iterator - the full list is a prefix of the fast one, at most one record shorter, equal on complete data) Dict.tla (CFF DICT data at the token level: the whole token list of a byte string, errors included) and Index.tla (the CFF INDEX reader: every small count x offset size x offset array incl. backwards / zero / out-of-data offsets, complete and cut short, with the answers for get(0..count+1)) for a third; "
                       "the raw tables are iterated by the real code under a deadline.")
     ck.assumptions = ["tables are exercised through the instances that occur in the corpus (evidence: tables_seen); CFF/CFF2 have "
                       "no traversal impl and are reached through glyph loading only",
@@ -160,6 +160,15 @@ def run(tier):
         ck.spec_error("CharstringMC", r)
     res = vlib.run_harness("fv-total", ["cs", "replay", "--cases", r.out, "--out", os.path.join(wd, "charstring.ndjson")], timeout=3000)
     ck.add_harness("replay:charstring", res, traces=False)
+    os.remove(r.out)
+    # CFF DICT data at the token level (Dict.tla): operand encodings, binary coded decimals judged for their form, operators,
+    # continuation after errors - the token list of every member through dict::tokens (and dict::entries for totality)
+    r = vlib.run_tlc(wd, "DictMC", cfg="DictMC_%s.cfg" % tier, workers=6, timeout=1800, xmx="8g", out_name="dict.out")
+    ck.add_tlc("tlc:Dict", r)
+    if not r.ok:
+        ck.spec_error("DictMC", r)
+    res = vlib.run_harness("fv-total", ["cs", "dict", "--cases", r.out, "--out", os.path.join(wd, "dict.ndjson")], timeout=3000)
+    ck.add_harness("replay:dict", res, traces=False)
     os.remove(r.out)
     return ck.finish()
 
